@@ -8,6 +8,12 @@ Two kinds of cases over generated histories with mainline merges, pending merges
 * depth d: uncommit d mainline revisions at once and compare with a plain-set model of the revision
   graph (left-hand walk, removed merge parents, tag reachability) that never calls vcsgraph's searchers.
 
+* refused tip change (a third of the variants, before the real uncommit of either kind): the same uncommit is first attempted while
+  the tip may not move backwards - append_revisions_only on the branch that is asked first (the master of a bound branch), on the
+  local branch of a bound one, or a pre_change_branch_tip hook that rejects (TipChangeRejected) / fails (injected exception).  The
+  uncommit must raise and leave branch, master, tags, tree parent list, disk and status exactly as they were (in particular the
+  tree stays in step with its branch); the restriction is lifted and the case goes on.
+
 uncommit is driven through breezy.uncommit.uncommit() and through the real `uncommit` command.
 """
 import io
@@ -22,18 +28,21 @@ TECHNIQUE = "before/after monitor for commit;uncommit and plain-set graph model 
 LEVEL_TEXT = ("on generated multi-branch histories with mainline merges (1-3 merged parents), ghosts, pending merges, uncommitted changes and tags on mainline / merged / "
               "unrelated / absent revisions: commit;uncommit restores tip, revno, parent list, disk bytes, status and tags; uncommit to every sampled depth gives the "
               "left-hand ancestor, the removed merge parents as pending merges, exactly the tags that became unreachable dropped (none with keep_tags); bound branches "
-              "move the master too, --local does not, an out-of-date master refuses and changes nothing")
+              "move the master too, --local does not, an out-of-date master refuses and changes nothing; an uncommit whose tip change is refused (append-only branch / "
+              "append-only master / rejecting or failing pre_change_branch_tip hook) raises and changes nothing, and the same uncommit succeeds once the restriction is lifted")
 RULE = ("case = history (3-7 generated revisions + 1-3 forced merge rounds) x setup {standalone, tree-less, bound, bound --local, bound out-of-date, unbound --local} x "
-        "{round trip, depth d in 1..revno} x {API, command} x keep_tags; non-trivial = round trip with uncommitted changes or pending merges, or depth case that removes "
+        "{round trip, depth d in 1..revno} x {API, command} x keep_tags x {no veto, tip change refused first by append_revisions_only / hook}; non-trivial = round trip with uncommitted changes or pending merges, or depth case that removes "
         "a merge revision, crosses a tag or has d >= 2; distinct = (mode, setup, via, d class, merges removed, tag classes, pending count)")
 CASES = {"quick": 64, "thorough": 1600}
 BUDGET_S = {"quick": 120, "thorough": 600}   # quick: 5 cases per worker, about 0.3 s each on an idle machine; the budget only matters under heavy load
 MIN_EVALS = {"quick": 100, "thorough": 600}
-FLOORS = {"quick": {"roundtrip": 30, "depth_model": 50, "tags_model": 50, "pending_model": 35, "master_moved": 10, "refusal_unchanged": 8},
-          "thorough": {"roundtrip": 150, "depth_model": 300, "tags_model": 300, "pending_model": 200, "master_moved": 60, "refusal_unchanged": 40}}
+FLOORS = {"quick": {"roundtrip": 30, "depth_model": 50, "tags_model": 50, "pending_model": 35, "master_moved": 10, "refusal_unchanged": 8, "tip_refusal_unchanged": 25},
+          "thorough": {"roundtrip": 150, "depth_model": 300, "tags_model": 300, "pending_model": 200, "master_moved": 60, "refusal_unchanged": 40, "tip_refusal_unchanged": 150}}
 ASSUMPTIONS = ["pending merges are compared as a set modulo WorkingTree.set_parent_ids' documented filtering (a merged parent that is an ancestor of another parent is "
                "absorbed); after a round trip the list must be identical",
                "round-trip workloads contain no versioned-but-missing files (commit unversions those, which is commit's documented side effect, not uncommit's)",
+               "a refused tip change is produced with the public means only (append_revisions_only, Branch.hooks['pre_change_branch_tip']); faults inside "
+               "set_last_revision_info's own writes (transport errors, crashes) are not injected here",
                "the oracle's graph algebra trusts Repository.get_parent_map / Revision.parent_ids"]
 
 SETUPS = ["standalone", "standalone", "treeless", "bound", "bound", "bound-local", "bound-ood", "unbound-local"]
@@ -202,6 +211,12 @@ def _outcome(fn):
         return SELF_DEADLOCK
     except errors.GhostRevisionUnusableHere:
         return GHOST_LEFTMOST
+    except errors.AppendRevisionsOnlyViolation:
+        return "AppendRevisionsOnlyViolation"
+    except errors.TipChangeRejected:
+        return "TipChangeRejected"
+    except InjectedHookFault:
+        return "InjectedHookFault"
     except BaseException as e:  # pyo3 PanicException is a BaseException
         if type(e).__name__ == "PanicException" and "LockContention" in str(e):
             return SELF_DEADLOCK
@@ -221,7 +236,93 @@ def _self_deadlock(ctx, out, setup, detail):
     return True
 
 
+class InjectedHookFault(Exception):
+    """Raised by the failing pre_change_branch_tip hook (stands for any plugin hook / tip write that dies)."""
+
+
+# veto kind -> outcome the uncommit must end with
+VETO_OUTCOME = {"append-only": "AppendRevisionsOnlyViolation", "append-only-local": "AppendRevisionsOnlyViolation",
+                "hook-reject": "TipChangeRejected", "hook-error": "InjectedHookFault"}
+HOOK_NAME = "c16 tip veto"
+
+
+def _pick_veto(rng, setup, local, bound):
+    """Which restriction refuses the tip change.  'append-only' sits on the branch whose tip uncommit moves first."""
+    kinds = ["append-only", "append-only", "hook-reject", "hook-error"]
+    if bound and not local:
+        kinds.append("append-only-local")   # the master accepts, the bound branch itself refuses
+    return rng.choice(kinds)
+
+
+def _install_veto(kind, path, master, local):
+    """Returns lift().  Only public means: the append_revisions_only setting and the pre_change_branch_tip hook point."""
+    from breezy import errors
+    from breezy.branch import Branch
+
+    if kind.startswith("append-only"):
+        where = master if (master and not local and kind == "append-only") else path
+        Branch.open(where).set_append_revisions_only(True)
+        return lambda: Branch.open(where).set_append_revisions_only(False)
+
+    def veto(params):
+        if kind == "hook-reject":
+            raise errors.TipChangeRejected("c16: tip is frozen")
+        raise InjectedHookFault("c16: hook died")
+
+    Branch.hooks.install_named_hook("pre_change_branch_tip", veto, HOOK_NAME)
+    return lambda: Branch.hooks.uninstall_named_hook("pre_change_branch_tip", HOOK_NAME)
+
+
+def _refused_tip_change(ctx, mode, veto, setup, via, path, master, tree, new_revno, old_revno, local, keep_tags, before, detail):
+    """Attempt the uncommit while the tip may not move; it must raise and change nothing.  True = state intact, the case may go on."""
+    from vf.runner import Discard
+
+    try:
+        lift = _install_veto(veto, path, master, local)
+    except Exception as e:  # e.g. a branch format without append_revisions_only: not a C16 input
+        ctx.hist("veto-not-installable:%s:%s" % (veto, type(e).__name__))
+        return True
+    try:
+        out = _outcome(lambda: _run_uncommit(via, path, tree, new_revno, old_revno, local, keep_tags))
+    finally:
+        lift()
+    ctx.hist("tip-refused:%s:%s:%s" % (setup, veto, out))
+    detail = dict(detail, veto=veto, outcome=out, d=old_revno - new_revno)
+    after = _observe(path, master, tree)
+    if out != VETO_OUTCOME[veto]:
+        ctx.fail("%s:tip-refused:outcome:%s-expected-%s" % (mode, out, VETO_OUTCOME[veto]),
+                 "uncommit (%s, local=%s) under %s gave %s" % (setup, local, veto, out), detail)
+        return False
+    ctx.count("tip_refusal_unchanged")
+    ok = True
+    if tree:
+        # the essential coupling: a tree whose basis was its branch's tip still has that basis
+        ctx.count("tree_in_step")
+        if before["parents"][:1] == [before["info"][1]] and after["info"] == before["info"] and after["parents"][:1] != before["parents"][:1]:
+            ctx.fail("tip-refused:tree-rewound-branch-not",
+                     "uncommit was refused (%s) and the branch is still at %r, but the tree's basis went from %r to %r"
+                     % (out, after["info"], before["parents"][:1], after["parents"][:1]), detail)
+            ok = False
+    keys = ["info", "parents", "tags", "m_info", "m_tags", "disk", "status"]
+    if veto == "append-only-local" and after.get("m_info") != before.get("m_info"):
+        # the master was moved first and stays moved although the uncommit as a whole was refused
+        ctx.fail("tip-refused:bound:local-branch-refuses:master-rewound",
+                 "uncommit in a bound branch was refused by the bound branch itself (%s) after the master had been moved: master %r -> %r, local still %r"
+                 % (out, before["m_info"], after["m_info"], after["info"]), detail)
+        keys.remove("m_info")
+        ok = False
+    if ok:
+        ok = _same(ctx, before, after, keys, "%s:tip-refused-but-changed:%s" % (mode, out), "state after an uncommit whose tip change was refused", detail)
+    else:
+        _same(ctx, before, after, [k for k in keys if k not in ("parents", "status")], "%s:tip-refused-but-changed:%s" % (mode, out),
+              "state after an uncommit whose tip change was refused", detail)
+    ctx.note(("tip-refused", mode, setup, via, veto, min(old_revno - new_revno, 3), tree, len(before.get("parents", [])) > 1), nontrivial=True,
+             sample={"mode": mode + "+tip-refused", "setup": setup, "via": via, "veto": veto, "outcome": out, "d": old_revno - new_revno})
+    return ok
+
+
 VARIANTS = {"quick": 3, "thorough": 4}
+VETO_P = 0.4
 
 
 def case(ctx):
@@ -272,21 +373,22 @@ def case(ctx):
         mode = "roundtrip" if (ctx.index // len(SETUPS) + v) % 3 == 0 else "depth"
         via = rng.choice(["api", "api", "cmd", "cmd-default"])
         keep_tags = rng.random() < 0.3
+        veto = _pick_veto(rng, setup, local, master is not None) if rng.random() < VETO_P else None
         root2 = os.path.join(ctx.tmp("var"), "w")
         shutil.copytree(h.root, root2, symlinks=True)
         path2 = root2 + path[len(h.root):]
         master2 = (root2 + master[len(h.root):]) if master else None
         if master2:
             Branch.open(path2).bind(Branch.open(master2))
-        ctx.info = {"mode": mode, "setup": setup, "via": via, "keep_tags": keep_tags, "fmt": fmt, "target": target, "variant": v, "log": h.log[-40:]}
+        ctx.info = {"mode": mode, "setup": setup, "via": via, "keep_tags": keep_tags, "fmt": fmt, "target": target, "variant": v, "veto": veto, "log": h.log[-40:]}
         try:
             if mode == "roundtrip":
-                _roundtrip(ctx, rng, h, target, path2, master2, setup, via, keep_tags, local, npend, nch)
+                _roundtrip(ctx, rng, h, target, path2, master2, setup, via, keep_tags, local, npend, nch, veto)
             else:
                 if not tree:
                     # (destroy_workingtree() reverts first and trips over merge-modified records of paths that changed kind: IsADirectoryError)
                     Branch.open(path2).controldir.destroy_workingtree_metadata()
-                _depth(ctx, rng, h, target, path2, master2, setup, via, keep_tags, local, tree, tags, npend if tree else 0, nch)
+                _depth(ctx, rng, h, target, path2, master2, setup, via, keep_tags, local, tree, tags, npend if tree else 0, nch, veto)
         except Discard as e:
             ctx.hist("discarded-variant:%s" % e)
         boot_rm(root2)
@@ -298,7 +400,7 @@ def boot_rm(p):
     boot.rm(os.path.dirname(p))
 
 
-def _roundtrip(ctx, rng, h, target, path, master, setup, via, keep_tags, local, npend, nch):
+def _roundtrip(ctx, rng, h, target, path, master, setup, via, keep_tags, local, npend, nch, veto=None):
     from breezy import errors
     from breezy.branch import Branch
     from breezy.workingtree import WorkingTree
@@ -306,6 +408,8 @@ def _roundtrip(ctx, rng, h, target, path, master, setup, via, keep_tags, local, 
     if setup in ("treeless", "bound-ood", "unbound-local"):
         setup = "standalone" if master is None else "bound"
         local = False
+        if veto == "append-only-local" and master is None:
+            veto = "append-only"
         if master is not None:
             # the extra master revision of bound-ood makes commit itself refuse: bring the checkout up to date first
             try:
@@ -333,6 +437,12 @@ def _roundtrip(ctx, rng, h, target, path, master, setup, via, keep_tags, local, 
     if tag_new:
         Branch.open(path).tags.set_tag("on-new", newrev)
     old_revno = mid["info"][0]
+    if veto:
+        # first the same uncommit while the tip may not move: it must leave the committed state alone
+        committed = _observe(path, master)
+        if not _refused_tip_change(ctx, "roundtrip", veto, setup, via, path, master, True, old_revno - 1, old_revno, local, keep_tags, committed,
+                                   {"tag_new": tag_new, "pending_before_commit": [p.decode() for p in before["parents"][1:]]}):
+            return
     out = _outcome(lambda: _run_uncommit(via, path, True, old_revno - 1, old_revno, local, keep_tags))
     ctx.hist("roundtrip:%s:%s" % (setup, out))
     if _self_deadlock(ctx, out, setup, {"tag_new": tag_new}):
@@ -368,7 +478,7 @@ def _roundtrip(ctx, rng, h, target, path, master, setup, via, keep_tags, local, 
                      "changes_before": len(before["status"]), "selected": selected, "keep_tags": keep_tags})
 
 
-def _depth(ctx, rng, h, target, path, master, setup, via, keep_tags, local, tree, tags, npend, nch):
+def _depth(ctx, rng, h, target, path, master, setup, via, keep_tags, local, tree, tags, npend, nch, veto=None):
     from breezy.branch import Branch
 
     before = _observe_pre(ctx, path, master, tree)
@@ -398,6 +508,12 @@ def _depth(ctx, rng, h, target, path, master, setup, via, keep_tags, local, tree
         expect = "BoundBranchOutOfDate"
     else:
         expect = "ok"
+    if veto and expect == "ok":
+        # first the same uncommit while the tip may not move (documented refusals are decided before the tip is touched: not combined)
+        if not _refused_tip_change(ctx, "depth", veto, setup, via, path, master, tree, new_revno, old_revno, local, keep_tags, before,
+                                   {"old": repr(before["info"]), "old_pending": [x.decode() for x in old_pending],
+                                    "removed_merged": [x.decode() for x in rem_merged]}):
+            return
     out = _outcome(lambda: _run_uncommit(via, path, tree, new_revno, old_revno, local, keep_tags))
     ctx.hist("depth:%s:%s" % (setup, out))
     after = _observe(path, master, tree)
